@@ -229,6 +229,7 @@ func NewSugarDB(options ...func(sugarDB *SugarDB)) (*SugarDB, error) {
 			GetCommand:            sugarDB.getCommand,
 			SetValues:             sugarDB.setValues,
 			SetExpiry:             sugarDB.setExpiry,
+			Flush:                 sugarDB.Flush,
 			StartSnapshot:         sugarDB.startSnapshot,
 			FinishSnapshot:        sugarDB.finishSnapshot,
 			SetLatestSnapshotTime: sugarDB.setLatestSnapshot,
